@@ -610,7 +610,7 @@ func onewf(toks []string) string {
 		return "bad-op"
 	}
 	oenv[id] = o
-	return "ok " + kindName(o) + " " + hx(o.JSON())
+	return "ok " + kindName(o) + " " + hx(firstJSON(o))
 }
 
 // xalgebra A B: the C09 laws that can be judged on the implementation alone (all 12 kinds,
